@@ -426,6 +426,11 @@ class Taint:
             return (b.env or {}).get(e.attr, CLEAN())
         if e.attr in ('dtype', 'dtypes'):
             return CLEAN()            # the schema is public
+        if e.attr == 'columns' and b.frame:
+            return CLEAN()            # the column labels of a dataset's frame are its schema
+        if e.attr == 'empty' and b.frame and b.t:
+            # DataFrame.empty is true when ANY axis has length 0: also for a table with columns but no records
+            return AV(True, count=True, why='whether the private frame has no records (`%s`)' % U(e))
         if e.attr == 'shape' and b.frame and b.t and isinstance(e.value, ast.Attribute) and e.value.attr == 'df':
             # (rows, columns) of a dataset's frame: the number of records (private; public only under bounded adjacency) and the number
             # of attributes (the schema, public)
@@ -840,6 +845,10 @@ class Taint:
             env[st.name] = AV(kind='func', fn=st, env=env, mod=mod)
         elif isinstance(st, ast.Assert):
             self.sink(self.ev(st.test, env, mod), st.test, mod, 'private data decides an assertion')
+        elif isinstance(st, ast.Raise):
+            # an error raised on purpose: what it says may not carry private data; WHETHER it is raised is decided by the enclosing tests (sinks)
+            if st.exc is not None:
+                self.sink(self.ev(st.exc, env, mod), st.exc, mod, 'private data is put into an error message')
         elif isinstance(st, (ast.Pass, ast.Import, ast.ImportFrom, ast.Break, ast.Continue, ast.Global, ast.Nonlocal)):
             pass
         elif isinstance(st, ast.Try):
